@@ -121,6 +121,9 @@ var c15Topics = []string{"r/a", "w/a", "x", "q", "xy"}
 func pat(prefix string) string { return "^" + prefix + ".*$" }
 
 func (p *c15Prop) Gen(r *Rng, i int, tier string) interface{} {
+	if i%36 == 23 {
+		return &c15Case{Kind: "q2swap", V5: r.Bool()}
+	}
 	if i%18 == 5 {
 		c := &c15Case{Kind: "will", V5: r.Bool(), Forbidden: !r.Chance(30)}
 		if c.V5 && r.Chance(40) {
@@ -277,6 +280,9 @@ func (p *c15Prop) Run(ci interface{}) interface{} {
 	}
 	if c.Kind == "will" {
 		return p.runWill(c)
+	}
+	if c.Kind == "q2swap" {
+		return p.runQ2Swap(c)
 	}
 	if c.Kind == "alias" {
 		return p.runAlias(c)
@@ -578,6 +584,9 @@ func (p *c15Prop) Coq(ci interface{}, oi interface{}) string {
 		}
 		return fmt.Sprintf("(CAlias %s %s %s)", cList(ps), cInts(o.Alias), cBool(o.Err == ""))
 	}
+	if c.Kind == "q2swap" {
+		return fmt.Sprintf("(CQ2Swap %s %s %s %s)", cBool(c.V5), cBool(o.WillRouted), cBool(o.WillRetained), cBool(o.Err == ""))
+	}
 	if c.Kind == "will" {
 		return fmt.Sprintf("(CWill %s %s %d %s %s %s)", cBool(c.Forbidden), cBool(c.V5), o.Connack, cBool(o.WillRouted), cBool(o.WillRetained), cBool(o.Err == ""))
 	}
@@ -613,6 +622,9 @@ func (p *c15Prop) Class(ci interface{}, oi interface{}) (string, bool) {
 	}
 	if c.Kind == "will" {
 		return "will", true
+	}
+	if c.Kind == "q2swap" {
+		return "q2swap", true
 	}
 	if c.Kind == "chain" {
 		return fmt.Sprintf("chain-%d", len(c.Verdicts)), true
@@ -689,5 +701,79 @@ func (p *c15Prop) runWill(c *c15Case) interface{} {
 	})
 	r, _ := b.Topics.Retained(topic)
 	obs.WillRetained = len(r) > 0
+	return obs
+}
+
+// q2swap: an authorised QoS 2 PUBLISH is waiting for its PUBREL; a second QoS 2 PUBLISH under the SAME packet identifier
+// names a topic the user may not write; then the PUBREL: what is routed is the authorised message, never the other one
+// (WillRouted: the authorised one was routed; WillRetained: the forbidden one was)
+func (p *c15Prop) runQ2Swap(c *c15Case) interface{} {
+	obs := &c15Obs{}
+	au := &progAuth{
+		password: func(_, _, _ string) bool { return true },
+		acl: func(_, user, topic string, write bool) bool {
+			return !(user == "tested" && write && strings.HasPrefix(topic, "nw0/"))
+		},
+	}
+	b, err := NewBroker(BrokerOpts{Auth: []*progAuth{au}})
+	if err != nil {
+		obs.Err = err.Error()
+		return obs
+	}
+	defer b.Drop()
+	wc := b.Dial()
+	if _, err := wc.Connect(ConnectOpts{ID: "watcher", Ver: mqttp.ProtocolV311, Clean: true, User: "other", Pass: "x"}); err != nil {
+		obs.Err = "watcher: " + err.Error()
+		return obs
+	}
+	w := wc.Auto(false)
+	_ = w.SendL(mkSubscribe(mqttp.ProtocolV311, 1, []string{"#"}, []byte{1}))
+	if !w.WaitFor(5*time.Second, func() bool { return len(w.Others) >= 1 }) {
+		obs.Err = "watcher: no suback"
+		return obs
+	}
+	ver := mqttp.ProtocolV311
+	if c.V5 {
+		ver = mqttp.ProtocolV50
+	}
+	tc := b.Dial()
+	if _, err := tc.Connect(ConnectOpts{ID: "T", Ver: ver, Clean: true, User: "tested", Pass: "pw"}); err != nil {
+		obs.Err = "tested: " + err.Error()
+		return obs
+	}
+	// a raw client: nothing is answered by itself, the PUBREL is sent below
+	_ = tc.Send(mkPublish(ver, "ok/t", []byte{1}, 2, false, 77))
+	if pk, err := tc.Recv(5 * time.Second); err != nil || pk.Type() != mqttp.PUBREC {
+		obs.Err = "no PUBREC"
+		return obs
+	}
+	evil := mkPublish(ver, "nw0/t", []byte{2}, 2, true, 77)
+	evil.SetDup(true)
+	_ = tc.Send(evil)
+	_, _ = tc.Recv(2 * time.Second)
+	_ = tc.Send(mkAck(ver, mqttp.PUBREL, 77))
+	_, _ = tc.Recv(2 * time.Second)
+	_ = tc.Send(mkPublish(ver, "marker/t", []byte{0xEE}, 0, false, 0))
+	w.WaitFor(3*time.Second, func() bool {
+		for _, m := range w.Pubs {
+			if m.Topic() == "marker/t" {
+				return true
+			}
+		}
+		return false
+	})
+	w.mu.Lock()
+	for _, m := range w.Pubs {
+		if m.Topic() == "ok/t" {
+			obs.WillRouted = true
+		}
+		if m.Topic() == "nw0/t" {
+			obs.WillRetained = true
+		}
+	}
+	w.mu.Unlock()
+	if r, _ := b.Topics.Retained("nw0/t"); len(r) > 0 {
+		obs.WillRetained = true
+	}
 	return obs
 }
